@@ -61,6 +61,7 @@ theorem lookupS_replace_other {α : Type} (k k' : Str) (c c' : α) (l : List (St
 theorem validates_with_id (env : Env) (g : Globals) (version : Str) (c : ClassDef)
     (kvs : List (Str × Json)) (u k : Str)
     (hm : c.metaSchema = .obj kvs) (hid : Json.lookup c.cfg.idKey kvs = some (.str u)) (hne : u ≠ [])
+    (hnr : Json.hasKey (skey "$ref") kvs = false)
     (hn : env.urinorm u = some k) :
     validates env version c g = .ok
       { metaSchemas := (g.metaSchemas.filter (·.1 ≠ k)) ++ [(k, c)]
@@ -71,8 +72,34 @@ theorem validates_with_id (env : Env) (g : Globals) (version : Str) (c : ClassDe
     | nil => exact absurd rfl hne
     | cons _ _ => rfl
   unfold validates
-  simp only [hm, hid, he, hn]
+  simp only [hm, hid, he, hn, hnr]
   rfl
+
+/-- next to a `$ref` key the metaschema has no id (`ID_OF`): only the version name is registered -/
+theorem validates_with_ref (env : Env) (g : Globals) (version : Str) (c : ClassDef)
+    (kvs : List (Str × Json)) (hm : c.metaSchema = .obj kvs)
+    (hr : Json.hasKey (skey "$ref") kvs = true) :
+    validates env version c g = .ok
+      { metaSchemas := g.metaSchemas
+        validators := (g.validators.filter (·.1 ≠ version)) ++ [(version, c)]
+        latest := g.latest } := by
+  unfold validates
+  simp only [hm, hr]
+  rfl
+
+/-! a metaschema with an id next to a `$ref` key: the class is not registered by that id -/
+namespace RegCex
+def env : Env := { (default : Env) with urinorm := fun u => some u }
+def kvs : List (Str × Json) := [(skey "$ref", .str (skey "#")), (skey "id", .str (skey "urn:x"))]
+def cls : ClassDef := ⟨"c", { (default : Cfg) with idKey := skey "id" }, .obj kvs⟩
+def g : Globals := ⟨[], [], cls⟩
+def g' : Globals := ⟨[], [(skey "v", cls)], cls⟩
+
+theorem hv : validates env (skey "v") cls g = .ok g' :=
+  validates_with_ref env g (skey "v") cls kvs rfl (by decide +kernel)
+theorem hid : Json.lookup cls.cfg.idKey kvs = some (.str (skey "urn:x")) := by decide +kernel
+theorem hne : skey "urn:x" ≠ [] := by decide +kernel
+end RegCex
 
 /-! ### `freshResolver`, `checkSchema` read the registry only through the metaschemas -/
 
